@@ -8,7 +8,7 @@ VERIF = os.path.dirname(os.path.abspath(__file__))
 P = {
  "C01": dict(
   technique="property-based testing (rapid): grammar-based + mutation-based string generation against a reference recogniser; coverage-guided native fuzzing in the thorough tier",
-  text="Generated-input search against an independent membership oracle. 250k strings per quick run (30% valid by construction, 50% 1-3 structured edits of a valid vector with 18 mutation operators covering every grammar position, 10% cross-version token soup, 10% raw bytes), each offered to all four parsers; the oracle is a split-based recogniser written from the grammar in the property, cross-checked against anchored regular expressions. Plus, every run, the COMPLETE one-edit neighbourhood (every byte deleted / replaced / inserted from a 61-byte alphabet, every truncation, every element deleted / duplicated anywhere / moved anywhere / swapped, empty elements, 25 header shapes) of 17 representative vectors covering every layout: about 173,000 strings. Also asserts the result shape (object xor error) and no panic. Thorough: 16 shards x 1.5M strings plus 150 s of coverage-guided fuzzing with the oracle inside the target. Sampling of an infinite language: no completeness claim.",
+  text="Generated-input search against an independent membership oracle. 250k strings per quick run (30% valid by construction, 50% 1-3 structured edits of a valid vector with 18 mutation operators covering every grammar position, 10% cross-version token soup, 10% raw bytes), each offered to all four parsers; the oracle is a split-based recogniser written from the grammar in the property, cross-checked against anchored regular expressions. Plus, every run, the COMPLETE one-edit neighbourhood (every byte deleted / replaced / inserted from a 61-byte alphabet, every truncation, every element deleted / duplicated anywhere / moved anywhere / swapped, empty elements, 25 header shapes) of 17 representative vectors covering every layout (about 173,000 strings) and every order-preserving subsequence of the v2 metric list / every subset of the v3 and v4 base metrics (about 43,000 strings). Also asserts the result shape (object xor error) and no panic. Thorough: 16 shards x 1.5M strings plus 150 s of coverage-guided fuzzing with the oracle inside the target. Sampling of an infinite language: no completeness claim.",
   note="Trusted base: spec/grammar.go (reference recognisers). rapid v1.3.0 for generation/shrinking.", ref="4 C01"),
  "C02": dict(
   technique="stateful property-based testing (rapid operation histories) with a round-trip oracle; exhaustive pair grids; complete v2 enumeration in the thorough tier",
